@@ -89,4 +89,14 @@ def centerImageTrim (rows cols : Nat) (oddSize square : Bool) : Nat × Nat × Na
       (0, rows1, xs, rows1)
   else (0, rows, 0, cols1)
 
+/-! sub-pixel part of a centring shift with `order=1` (linear interpolation of the zero-padded data) -/
+section
+variable {α : Type} [Add α] [Sub α] [Mul α] [OfNat α 1]
+
+/-- `scipy.ndimage.shift(np.pad(x, 1), k + f, order=1)[1:-1]` for `0 ≤ f < 1`: `out[i] = (1 − f)·x[i − k] + f·x[i − k − 1]`,
+    `x` extended by zero outside the frame -/
+def shiftLin (k : Int) (f : α) (x : Int → α) : Int → α := fun i => (1 - f) * x (i - k) + f * x (i - k - 1)
+
+end
+
 end PyAbel
